@@ -56,7 +56,7 @@ def check_state(desc, sc, pats, flagsets, res, bash=True, names_tag='std'):
                 res.add_violation(ID, run.viol('no-termination', inp, 'terminates within %d scandir calls' % HORIZON,
                                                {'scandir_calls': nscan}))
                 continue
-            if len(text) % 3 == 0 and '..' not in text:
+            if (len(text) % 3 == 0 or not any(ch in text for ch in '*?[({|')) and '..' not in text:
                 # the same call with the root given as a directory descriptor lists the same paths (patterns that climb
                 # out of the scratch tree would compare two listings of a directory other processes write to)
                 fd = os.open(sc.root, os.O_RDONLY | os.O_DIRECTORY)
